@@ -12,7 +12,6 @@
 //!   C <id> ab=<acts> ba=<acts>          CASE handshake            "
 //!   Q <id> n=<k> ab=<acts> ba=<acts>    k request/response round trips on a CASE session "
 use core::num::NonZeroU8;
-use std::cell::RefCell;
 use std::collections::BTreeMap;
 use std::fmt::Write as _;
 use std::io::Write as _;
@@ -295,17 +294,21 @@ fn run_e2e(kind: &str, f: &[&str]) -> String {
             fab_a = fa;
         }
         _ => {
-            matter_a.with_state(|s| s.fabrics.add_with_post_init(|_| Ok(())).unwrap());
-            matter_b.with_state(|s| s.fabrics.add_with_post_init(|_| Ok(())).unwrap());
+            matter_a.with_state(|s| {
+                s.fabrics.add_with_post_init(|_| Ok(())).unwrap();
+            });
+            matter_b.with_state(|s| {
+                s.fabrics.add_with_post_init(|_| Ok(())).unwrap();
+            });
             e2e::preset_case_session(&matter_a, &crypto, A_NODE, B_NODE, 1, 2, e2e::node_addr(B), 1, Default::default()).unwrap();
             e2e::preset_case_session(&matter_b, &crypto, B_NODE, A_NODE, 2, 1, e2e::node_addr(A), 1, Default::default()).unwrap();
         }
     }
 
+    let sc = SecureChannel::new(&crypto, &());
+    let sc_responder = Responder::new("b-sc", sc, &matter_b, 0);
+    let echo_responder = Responder::new("b-echo", Echo, &matter_b, 0);
     let outcome = e2e::block_on(async {
-        let sc = SecureChannel::new(&crypto, &());
-        let sc_responder = Responder::new("b-sc", sc, &matter_b, 0);
-        let echo_responder = Responder::new("b-echo", Echo, &matter_b, 0);
         let b_app = async {
             if kind == "Q" {
                 echo_responder.run::<4>().await
